@@ -634,8 +634,12 @@ def run_model(U, cases, hdrs, ops_of, workdir, tag):
     by_tid = {}
     for c in cases:
         by_tid.setdefault(c.tid, []).append(c)
-    # balance the shards by an estimate of the work (the extracted model is quadratic in the stream length)
-    cost = {tid: sum(60 + approx_len(U, c.t, c.v) ** 2 // 40 for c in cs) for tid, cs in by_tid.items()}
+    # balance the shards by an estimate of the work: roughly linear in the stream length times the
+    # number of positions tried (all of them up to a few hundred bytes, a sample beyond)
+    def est(c):
+        n = approx_len(U, c.t, c.v)
+        return 100 + n * min(n, 600) // 20
+    cost = {tid: sum(est(c) for c in cs) for tid, cs in by_tid.items()}
     groups = [[] for _ in range(NPROC)]
     load = [0] * NPROC
     for tid in sorted(by_tid, key=lambda t: -cost[t]):
